@@ -19,7 +19,7 @@ def body(chk, db, cfgname):
     r4 = chk.rule("C12-R4", "every index quadruple: the container hands out the stored element with the frequency permutation and sign of its index order", "F7 tables + F6 (rules C13-R1, C13-R2)", 29)
     c15.body(ViewCheck(chk, {"C15-R4": r1}), db, cfgname)
     c13.body(ViewCheck(chk, {"C13-R1": r4, "C13-R2": r4}), db, cfgname)
-    c02.body(ViewCheck(chk, {"C02-R1": r2, "C02-R2": r2, "C02-R4": r2, "C02-R5": r2, "C02-R6": r2}), db, cfgname)
+    c02.body(ViewCheck(chk, {"C02-R1": r2, "C02-R2": r2, "C02-R4": r2, "C02-R5": r2, "C02-R6": r2, "C02-R7": r2}), db, cfgname)
     c01.body(ViewCheck(chk, {"C01-R1": r3}), db, cfgname)
     c11.body(ViewCheck(chk, {"C11-R2": r3}), db, cfgname)
     chk.undecided.append("G(z) = (z - h)^{-1} and the vanishing of the irreducible vertex for quadratic Hamiltonians (identity between computed values); numerical behaviour of the resonance decision for nearly degenerate levels")
